@@ -7,7 +7,7 @@ S = os.path.join(ROOT, 'seeded')
 runs = {}
 for f in sorted(glob.glob(os.path.join(S, 'results_*.json'))):
     name = os.path.basename(f)[len('results_'):-len('.json')]
-    wave = next((f'w{k}-' for k in (2, 3, 4, 5, 6, 7) if f'wave{k}' in name), '')
+    wave = next((f'w{k}-' for k in (2, 3, 4, 5, 6, 7, 8) if f'wave{k}' in name), '')
     for r in json.load(open(f)):
         q = r.get('quick', {}); t = r.get('thorough', {})
         if not r.get('detected'):
